@@ -4,7 +4,8 @@ import re as _re
 ID = 'C19'
 FUNCTIONS = [('utils', 'db'), ('utils', 'dbm'), ('utils', 'idb'), ('utils', 'idbm'), ('utils', 'Q'), ('utils', 'rcos'),
              ('utils', 'dec2bin'), ('utils', 'si'), ('utils', 'str2array'), ('utils', '_get_type_array_from_str'), ('utils', 'gaus')]
-BOUNDS = {'dB family': 'every positive real / every real dB value, scalars and arrays of length <= 3',
+BOUNDS = {'call-history differential': 'for the blocks of this property registered in vf/history.py (concrete orders / bandwidths / gains / gv configurations, symbolic samples): the call repeated in a session that first ran it with one parameter or one gv setting changed equals the call in a fresh library instance',
+          'dB family': 'every positive real / every real dB value, scalars and arrays of length <= 3',
           'rcos': 'every real x, alpha in [0,1], T > 0 (scalar path and arrays of length 2)',
           'dec2bin': 'every integer v in [0, 2^d + 3] for d in 1..16 (quick: d in {1,2,3,5,8,16})',
           'si': 'every real x in [1e-15, 1e15) and x = 0, precision k in {0,1,3}',
@@ -292,4 +293,6 @@ def configs(tier):
         out.append((f'str-cascade-len{n}', scen_str_cascade, dict(maxlen=n), {'limits': {'query_timeout_ms': 120000}}))
     out.append(('str-concrete', scen_str_concrete, {}, {}))
     out.append(('gaus', scen_gaus, {}, {}))
+    from vf import history as _history        # call-history differential of this property's blocks (vf/history.py)
+    out += _history.configs_for('C19')
     return out
